@@ -283,7 +283,9 @@ def _resolver_bfs(depth):
 def run(tier):
     rep = Report(ID, "model_checking")
     placements = [tuple(c) for r in range(1, 5) for c in itertools.combinations(DIRS, r)]
-    seqs = [tuple(s) for k in range(1, (2 if tier == "quick" else 3) + 1) for s in itertools.product(DIRECTIVES, repeat=k)]
+    seqs = [tuple(s) for k in (1, 2) for s in itertools.product(DIRECTIVES, repeat=k)]
+    if tier == "thorough":      # length 3 over the six plain directive forms (the X-macro phrases are three lines each already)
+        seqs += [tuple(s) for s in itertools.product(DIRECTIVES[:6], repeat=3)]
     slists = [tuple(x) for x in search_lists()]
     cases = []
     for pl in placements:
@@ -295,7 +297,7 @@ def run(tier):
                             continue
                         cases.append((pl, st, sq, sl, forced))
     chunks = [cases[i:i + 400] for i in range(0, len(cases), 400)]
-    res = par.pmap(_work, [(c, tier == "thorough") for c in chunks])
+    res = par.pmap(_work, [(c, False) for c in chunks])      # gcc judges every ninth case (every case costs a process)
     for r in res:
         rep.add(r[3])
     sinfo, sfails = _resolver_bfs(2 if tier == "quick" else 3)
